@@ -35,7 +35,7 @@ def run(run):
     with open(p, "w") as f:
         f.write("SPECIFICATION GenSpec\nCHECK_DEADLOCK FALSE\nCONSTANTS\n  MG = %d\n  MC = %d\n  Nets = {}\n  Opts = {}\n  UnitWeights = FALSE\n  SlowHeuristic = FALSE\n" % ((12, 3) if quick else (2, 1)))
     cp = os.path.join(out, "cases.ndjson")
-    ncases = run.gen("gen", SPEC, "RouteGen", p, cp, workers=1, timeout=3000)
+    ncases = run.gen("gen", SPEC, "RouteGen", p, cp, workers=1, timeout=3000, require=["route", "twin"])
     tr1 = os.path.join(out, "trace_replay.ndjson")
     run.drive(["c19", "replay", cp, tr1], timeout=3000)
     nrand = 500 if quick else 20000
